@@ -36,7 +36,8 @@ def candidates_c04():
 
 def env_model(name, grid, cands, mandatory, maxopt, lats, folds, modes, delays=(0,), eplens=(0,), spaces=("box",),
               bads=((0, "ok"),), maxcalls=4, reset_anywhere=True, clock="after_newdate", order="by_time",
-              null="in_space", invariants=(), properties=(), trade=False, tick=1, daylen=DAY, resetlens=(0,), specification=None, reuse=False):
+              null="in_space", invariants=(), properties=(), trade=False, tick=1, daylen=DAY, resetlens=(0,), specification=None, reuse=False,
+              start_stride=1):
     defs = {
         "Grid": list(grid),
         "Cand": list(cands),
@@ -52,7 +53,7 @@ def env_model(name, grid, cands, mandatory, maxopt, lats, folds, modes, delays=(
         "Bads": tlagen.Raw("{" + ", ".join('[at |-> %d, cls |-> "%s"]' % b for b in bads) + "}"),
     }
     plain = {"DayLen": daylen, "MaxOpt": maxopt, "MaxCalls": maxcalls, "ResetAnywhere": reset_anywhere, "ClockRule": clock,
-             "HistoryOrder": order, "NullRule": null}
+             "HistoryOrder": order, "NullRule": null, "StartStride": start_stride}
     return {
         "name": name,
         "module": tlagen.mc_module("MC", "Env", defs),
